@@ -28,6 +28,7 @@ def buflogic(n, p=0, timeout=900, overrun=0, bufsz=None):
                 defs=["-DN=%d" % n, "-DBUFSZ=%d" % bufsz, "-DOVERRUN=%d" % overrun], unwind=2 * n + 6, unwindset=us,
                 flags=["--no-array-field-sensitivity"],
                 remove_bodies=["SCPI_Parse", "scpiParser_detectProgramMessageUnit"], link_stubs=["SCPI_Parse", "scpiParser_detectProgramMessageUnit"], timeout=timeout, mem_est=6, functions=["SCPI_Input"],
+                optional_witness=(["fits-and-executes"] if bufsz <= 2 else []),
                 stubs=["SCPI_Parse replaced by a recording stub with symbolic return value",
                        "scpiParser_detectProgramMessageUnit replaced by an abstract detector (unit = bytes up to and including the first ';' or LF) that satisfies the stability lemma by construction",
                        "memcpy/memmove: CBMC models with array field sensitivity off"],
